@@ -11,15 +11,16 @@ import (
 )
 
 type Gen struct {
-	R       *SplitMix
-	W       map[string]int // weights by command family
-	Text    string         // "plain" | "unicode" | "huge"
-	Modes   []string       // input modes to draw from
-	Agents  []string
-	nfile   int
-	BadBias int // percent of commands deliberately aimed at failure causes
-	Human   int // percent of commands run without --json
-	Known   map[string]bool
+	R        *SplitMix
+	W        map[string]int // weights by command family
+	Text     string         // "plain" | "unicode" | "huge"
+	Modes    []string       // input modes to draw from
+	Agents   []string
+	nfile    int
+	BadBias  int // percent of commands deliberately aimed at failure causes
+	Human    int // percent of commands run without --json
+	Known    map[string]bool
+	ForcePct int // percent of creations whose first id draw is forced to collide
 	// avoid triggers of open known findings in most runs (see DESIGN 5)
 	Avoid map[string]bool
 }
@@ -169,6 +170,15 @@ func (g *Gen) mode() string { return g.Modes[g.R.Intn(len(g.Modes))] }
 // Next generates the next step for a sequential run.
 func (g *Gen) Next(m *Model) Step {
 	st := g.next(m)
+	if c := st.Cmd; c != nil && g.ForcePct > 0 && (c.Op == "new_task" || c.Op == "new_epic" || c.Op == "plan") && g.R.Intn(100) < g.ForcePct {
+		// entropy fault: the next id draw collides with a pruned id (must not be
+		// re-issued) or with a live one (must be retried)
+		if ref, ok := g.prunedRef(m); ok && g.R.Chance(2, 3) {
+			st.ForceID = ref
+		} else if ref, ok := g.liveOf(m, anyItem); ok {
+			st.ForceID = ref
+		}
+	}
 	if c := st.Cmd; c != nil && c.Mode != "" && c.Mode != "json" {
 		// text that travels in argv cannot contain NUL (no caller can pass one)
 		strip := func(p *string) {
